@@ -357,6 +357,7 @@ func runC03(c *run.Ctx) {
 	families = append(families, layoutEqualityCases()...)
 	families = append(families, collisionCases()...)
 	families = append(families, confusableCases()...)
+	families = append(families, deepMismatchCases()...)
 	for i, pc := range families {
 		if !c.Mine(i) {
 			continue
